@@ -131,6 +131,8 @@ def run(check, ctx):
     c_ghash.ghash_tables(check, ctx, rule="M")
     c_kat.kat_tables(check, ctx, rule="M")
     c_pkcs1.pkcs1_tables(check, ctx, rule="M")
+    # the bcrypt key schedule reads key and salt cyclically: length 0 of either must be refused (fixed defect, see I.5)
+    c_kat.eks_guard_tables(check, ctx)
     c_ec.memory_tables(check, ctx)
     # the big-number layer: every load and store of the word / Montgomery / modular-exponentiation rows is bounds-checked
     # by the evaluator (operands of 1 byte up to several words, scratch and scramble arrays with short tails)
